@@ -383,17 +383,21 @@ def delete_consumers(consumers):
     :param consumers: iterable of Consumer objects to delete
     """
     for consumer in consumers:
-        try:
-            # Another request may have found the consumer in the meantime and
-            # written allocations for it; only a consumer that holds no
-            # allocations may be removed.
-            consumer_obj.delete_consumers_if_no_allocations(
-                consumer._context, [consumer.uuid])
-            LOG.debug("Deleted auto-created consumer with consumer UUID "
-                      "%s after failed allocation", consumer.uuid)
-        except Exception as err:
-            LOG.warning("Got an exception when deleting auto-created "
-                        "consumer with UUID %s: %s", consumer.uuid, err)
+        # One transient database error must not defeat the clean-up: the
+        # request is being refused and may leave nothing behind.
+        for attempt in range(3):
+            try:
+                # Another request may have found the consumer in the meantime
+                # and written allocations for it; only a consumer that holds
+                # no allocations may be removed.
+                consumer_obj.delete_consumers_if_no_allocations(
+                    consumer._context, [consumer.uuid])
+                LOG.debug("Deleted auto-created consumer with consumer UUID "
+                          "%s after failed allocation", consumer.uuid)
+                break
+            except Exception as err:
+                LOG.warning("Got an exception when deleting auto-created "
+                            "consumer with UUID %s: %s", consumer.uuid, err)
 
 
 def _set_allocations_for_consumer(req, schema):
